@@ -185,3 +185,22 @@ def random_scenario(rng: random.Random, cfg_name: str, depth: int, unique=False,
             evs.append(f"stop {rng.choice([0, 1])} {rng.choice([1, 3])}")
             break
     return cfg + " | " + " | ".join(evs)
+
+
+def sized(desc: str, total: int, key: str = "pn") -> str:
+    """the message description with its `key=` value (a string AVP: pn Product-Name, sid Session-Id) lengthened so that the
+    wire message is exactly `total` bytes long (a socket read of 2048 bytes can be filled exactly by one message)"""
+    import sim as simmod
+    head, _, kvs = desc.rpartition(":")
+    items = kvs.split(",")
+    idx = next(i for i, it in enumerate(items) if it.startswith(key + "="))
+    base = items[idx]
+    for n in range(0, total):
+        items[idx] = base + "p" * n
+        cand = head + ":" + ",".join(items)
+        ln = len(simmod.build_msg(cand))
+        if ln == total:
+            return cand
+        if ln > total:
+            break
+    raise ValueError(f"no {key} length gives a message of {total} bytes")
